@@ -1,7 +1,7 @@
 #!/usr/bin/env python3
 """Generates /verif/MANIFEST.json from the table below (single source of truth for the interface)."""
 import json, subprocess, os
-HOOK_COMMITS = ["9361e31", "621142d", "a5ab281"]
+HOOK_COMMITS = ["9361e31", "621142d", "a5ab281", "a262322"]
 EXPL = " Exploration level: the property held on everything generated/enumerated in the run (counts, label histogram and samples are in the evidence file); absence of violations is not established."
 TRUST = "Trusted: harness model families well-formed by construction (DESIGN §3), oracles independent of the library (h* on atom tables cross-checked by brute force; reference models), proptest/serde; "
 CHECKS = {
